@@ -52,6 +52,12 @@ CHECKS = {
    text="(a) Sequences of text and variable/block/comment/raw tags with every marker on either side are rendered under the 8 whitespace settings and compared with an independent model of the documented rules; all sequences of length <= 2 and all text-tag-text / tag-text-tag triples over a 37-symbol alphabet are enumerated. (b) Generated single-file programs whose text consists of partial and look-alike delimiters must render identically (or fail alike) with default delimiters and with each of 12 delimiter sets incl. prefix-sharing and nested-prefix ones. (c) Default-looking delimiters are verbatim text under a custom syntax; line statements/comments behave like whole-line tags.",
    note="A lone CR next to a tag is outside the model (undocumented whether it is a line boundary). (b) compares the engine with itself under two printings of the same AST; the core-fragment reference interpreter is used by C03, not here.",
    design="3/C10"),
+ "C11": dict(
+   technique="property-based testing with process isolation: generated recursive program shapes (cycles over macro / call-block / include / import edges, recursive loops over deep data, block self-calls, super() chains, with random non-recursive work per frame) rendered in worker processes of debug and release builds on 2 MiB and 8 MiB threads; outcome oracle (limit error / Ok, never a signal) plus monotonicity in the limit",
+   level="exploration",
+   text="Each generated shape is rendered with a generated recursion limit in a child process; the child must survive, unbounded shapes must fail with `recursion limit exceeded` somewhere in the cause chain, bounded ones may also succeed, no other error is accepted, and lowering the limit must not make the limit error disappear. Process deaths are attributed to the shape (edge kinds) that was running.",
+   note="One listed finding: block self-recursion and deep super() chains overflow 2 MiB stacks in debug builds (pinned accounting); crash signatures naming the block edge are tolerated, all others are violations.",
+   design="3/C11"),
  "C12": dict(
    technique="property-based testing: metamorphic relation over four configurations (Strict/SemiStrict/Lenient/Chainable renders of the same generated program), plus complete enumeration of the documented site x mode matrix",
    level="exploration",
